@@ -130,7 +130,23 @@ func c16Case(c *Ctx) {
 				c.Violate("newcharrecipe-defaults", fmt.Sprintf("NewCharRecipe(%d).Alphabet() = %q (%d characters), documented 68-7=61: %q", n, got, len(oracle.Chars(got)), want), nil)
 			}
 		}
+		// two constructor calls with a modification in between: defaults must not be shared state
+		r1 := spg.NewCharRecipe(8)
+		r1.Allow, r1.Require, r1.Exclude, r1.AllowChars = spg.Digits, spg.Digits, spg.None, "xyz"
+		r1.RequireSets = append(r1.RequireSets, "q")
+		r2 := spg.NewCharRecipe(20)
+		c.Distinct("nontrivial", "NewCharRecipe independence")
+		if r1 == r2 || r2.Length != 20 || r2.Allow != spg.All || r2.Exclude != spg.Ambiguous || r2.Require != 0 || r2.AllowChars != "" || len(r2.RequireSets) != 0 || r1.Length != 8 {
+			c.Violate("newcharrecipe-defaults", fmt.Sprintf("after modifying the recipe from NewCharRecipe(8), NewCharRecipe(20) returned %+v (same pointer: %v; first recipe now has Length %d)", *r2, r1 == r2, r1.Length), nil)
+		}
 		wl, _ := spg.NewWordList([]string{"alpha", "beta", "gamma"})
+		w1 := spg.NewWLRecipe(3, wl)
+		w1.Capitalize, w1.SeparatorChar, w1.SeparatorFunc = spg.CSAll, "+", spg.SFDigits2
+		w2 := spg.NewWLRecipe(5, wl)
+		c.Distinct("nontrivial", "NewWLRecipe independence")
+		if w1 == w2 || w2.Length != 5 || w2.Capitalize != "none" || w2.SeparatorChar != "" || w2.SeparatorFunc != nil || w1.Length != 3 {
+			c.Violate("newwlrecipe-defaults", fmt.Sprintf("after modifying the recipe from NewWLRecipe(3, wl), NewWLRecipe(5, wl) returned %+v", *w2), nil)
+		}
 		for _, n := range []int{1, 4, 0, -1} {
 			r := spg.NewWLRecipe(n, wl)
 			c.Exec(1)
